@@ -1,11 +1,11 @@
 package fsx
 
 import (
-	"strings"
 	"crypto/sha256"
 	"encoding/hex"
 	"fmt"
 	"sort"
+	"strings"
 
 	"github.com/mit-pdos/go-nfsd/nfstypes"
 )
